@@ -1,0 +1,16 @@
+//go:build verif
+
+package server
+
+import "github.com/jdillenkofer/pithos/internal/storage"
+
+// Pure specification functions used by the contracts in zz_contracts_verif.go.
+
+// specParsedRangeOK: what a parsed byte-range-spec looks like (RFC 7233 §2.1): either a suffix range
+// (no first-byte-pos, a suffix length) or a range with a non-negative first-byte-pos.
+func specParsedRangeOK(r storage.ByteRange) bool {
+	if r.Start == nil {
+		return r.End != nil
+	}
+	return *r.Start >= 0
+}
